@@ -3,6 +3,7 @@ package mon
 import (
 	"fmt"
 	"reflect"
+	"strings"
 
 	"github.com/miekg/dns"
 	"github.com/miekg/dns/dnsutil"
@@ -295,6 +296,36 @@ func c19Random(w *core.W, j int) {
 		}
 	}
 	w.Count("pairs", len(names)*len(names))
+	// the same names with their octets above 0x7F written raw (no \DDD): a name is a string of octets
+	for _, n := range names {
+		raw := rawHighOctets(n.Pres())
+		if raw == n.Pres() {
+			continue
+		}
+		w.Eval(1)
+		w.Count("raw_8bit_names", 1)
+		wit := map[string]any{"name": n.Pres(), "raw": raw}
+		w.Guard("raw-8bit helpers", wit, func() {
+			want := []byte(raw)
+			for i, c := range want {
+				if c >= 'A' && c <= 'Z' {
+					want[i] = c + 32
+				}
+			}
+			if got := dns.CanonicalName(raw); got != string(want) {
+				w.Violation("C19/CanonicalName/raw-8bit", fmt.Sprintf("CanonicalName(%q)=%q, want %q (only A-Z change)", raw, got, want), wit)
+			}
+			if got := dns.CountLabel(raw); got != len(n) {
+				w.Violation("C19/CountLabel/raw-8bit", fmt.Sprintf("CountLabel(%q)=%d, the name has %d labels", raw, got, len(n)), wit)
+			}
+			if got := dns.CompareDomainName(raw, n.Pres()); got != len(n) && false {
+				_ = got // the escaped and the raw spelling are different strings to the label helpers; not compared
+			}
+			if got := dns.CompareDomainName(raw, strings.ToUpper(raw)); got != len(n) && isASCIIUpperSafe(raw) {
+				w.Violation("C19/CompareDomainName/raw-8bit", fmt.Sprintf("CompareDomainName(%q, upper-cased)=%d, want %d", raw, got, len(n)), wit)
+			}
+		})
+	}
 	r := g.R
 	// names over octets whose 0x20-partner is not a letter either ( @` [{ \| ]} ^~ _DEL and control
 	// octets against 0x20..0x3F): a name and its partner-wise image share only the labels that are
@@ -362,4 +393,19 @@ func init() {
 		Assumptions: []string{"names are given in the canonical presentation form the library itself emits"},
 		MinObserved: []string{"enumerated_names", "pairs"},
 	})
+}
+
+// isASCIIUpperSafe: strings.ToUpper leaves the octets above 0x7F of s alone (true when they do not
+// form letters that have an upper case).
+func isASCIIUpperSafe(s string) bool {
+	u := strings.ToUpper(s)
+	if len(u) != len(s) {
+		return false
+	}
+	for i := 0; i < len(s); i++ {
+		if s[i] >= 0x80 && u[i] != s[i] {
+			return false
+		}
+	}
+	return true
 }
